@@ -22,6 +22,20 @@ CHECKS = {
         technique="deterministic simulation: forked processes parked at every intercepted FS call, crash-point enumeration with kill -9 and recovery oracles",
         design_ref="DESIGN.md 5, 7 (C06)",
     ),
+    "C07": dict(
+        engine="F",
+        category="exploration",
+        text=("2-3 real forked processes run keep / load workloads against one local store; a seeded scheduler "
+              "(uniform, sticky, PCT, bounded pre-emption) releases exactly one of them per file-system operation "
+              "(writes split in halves), with stall / peer-kill / clock faults. Every returned value is checked against the "
+              "dds-free reference (evaluations) or the set of values committed before or concurrently (loads, by global "
+              "event sequence numbers), no process may raise, and a fresh process must see a correct final state. "
+              "Schedules are sampled, not enumerated."),
+        note=("Trusts: interleaving granularity = one intercepted FS call; the write proxy; the necessary-condition "
+              "linearizability check for loads; workloads succeed in every serial order by construction."),
+        technique="deterministic simulation: seeded scheduling of real processes parked at intercepted FS calls, history oracles",
+        design_ref="DESIGN.md 5, 7 (C07)",
+    ),
     "C12": dict(
         engine="K",
         category="exploration",
